@@ -1,7 +1,264 @@
-// Deterministic thread scheduler (C18).
+// Deterministic scheduler for threaded runs (C18, thread part of C15).
+// Client tasks are real pthreads; exactly one runs at a time, the others are parked on private futex words.
+// Control returns here at yield points: before every operation, at every library lock operation (redirected by
+// --wrap: the simulator *is* the lock), and at the guarded hook sites inside the library.  A seeded strategy picks
+// the next runnable task; every decision is recorded, so one seed is one interleaving and a recorded decision list
+// replays it exactly.  A vector-clock detector judges the annotated shared-state accesses.
 #include "sim.h"
-bool sched_active() { return false; }
-int sched_lock(void *, int) { return 0; }
-int sched_trylock(void *, int) { return 0; }
-int sched_unlock(void *) { return 0; }
-void run_threaded(World &W, const Json &plan) {}
+#include <pthread.h>
+#include <atomic>
+#include <map>
+#include <algorithm>
+
+void baton_park(std::atomic<int> *w);
+void baton_wake(std::atomic<int> *w);
+
+typedef std::vector<u32> VC;
+static void vc_join(VC &a, const VC &b) { if (a.size() < b.size()) a.resize(b.size(), 0); for (size_t i = 0; i < b.size(); i++) a[i] = std::max(a[i], b[i]); }
+
+struct Task {
+    int id = 0;
+    std::atomic<int> wake{0};
+    enum St { READY, BLOCKED, DONE } st = READY;
+    void *wait_lock = nullptr;
+    VC vc;
+    pthread_t th;
+    const Json *ops = nullptr;
+    int base_index = 0;
+};
+struct LockSt { int writer = -1; std::map<int, int> readers; VC vc; };
+struct Shadow { int wtid = -1; u32 wclk = 0; std::string wsite; VC rclk; std::string rsite; };
+
+struct Sched {
+    World *W = nullptr;
+    std::vector<Task *> tasks;
+    std::map<void *, LockSt> locks;
+    std::map<const void *, Shadow> shadow;
+    Rng rng;
+    std::string strategy = "random";
+    int sticky_pct = 80;
+    std::vector<int> prio; std::vector<u64> change_points; int low_prio = -1;   // pct
+    std::vector<u64> preempt_points;                                            // rtc
+    std::vector<int> decisions;      // recorded
+    std::vector<int> replay; size_t rpos = 0; bool have_replay = false;
+    u64 yields = 0, budget = 50000, switches = 0;
+    bool free_run = false;           // after a deadlock / livelock verdict: let everything finish
+    std::atomic<int> main_wake{0};
+    int ntasks() const { return (int) tasks.size(); }
+};
+static Sched *S = nullptr;
+static thread_local int t_tid = -1;
+
+bool sched_active() { return S != nullptr && t_tid >= 0; }
+
+static std::vector<int> runnable(int exclude = -1) {
+    std::vector<int> r;
+    for (auto *t : S->tasks) if (t->st == Task::READY && t->id != exclude) r.push_back(t->id);
+    return r;
+}
+
+// pick the task to run next; me = calling task (or -1), me_ok = whether the caller itself may continue
+static int choose(int me, bool me_ok) {
+    std::vector<int> r = runnable(me_ok ? -1 : me);
+    if (r.empty()) return -1;
+    int pick;
+    bool me_run = me_ok && me >= 0 && S->tasks[me]->st == Task::READY;
+    u64 step = S->yields;
+    if (S->free_run) pick = me_run ? me : r[0];
+    else if (S->have_replay) {
+        if (S->rpos < S->replay.size()) {
+            int d = S->replay[S->rpos++];
+            if (d < 0) pick = me_run ? me : r[0];
+            else { int c = d % S->ntasks(); pick = (std::find(r.begin(), r.end(), c) != r.end()) ? c : r[(size_t) d % r.size()]; }
+        } else pick = me_run ? me : r[0];
+    } else if (S->strategy == "sticky") {
+        pick = (me_run && S->rng.below(100) < (u64) S->sticky_pct) ? me : r[S->rng.below(r.size())];
+    } else if (S->strategy == "pct") {
+        if (me >= 0 && std::find(S->change_points.begin(), S->change_points.end(), step) != S->change_points.end()) S->prio[me] = S->low_prio--;
+        pick = r[0];
+        for (int c : r) if (S->prio[c] > S->prio[pick]) pick = c;
+    } else if (S->strategy == "rtc") {
+        bool pre = std::find(S->preempt_points.begin(), S->preempt_points.end(), step) != S->preempt_points.end();
+        if (me_run && !pre) pick = me;
+        else { std::vector<int> o; for (int c : r) if (c != me) o.push_back(c); pick = o.empty() ? r[0] : o[S->rng.below(o.size())]; }
+    } else pick = r[S->rng.below(r.size())];
+    S->decisions.push_back(pick);
+    S->W->trace.add("sched", pick);
+    return pick;
+}
+
+static void switch_to(Task &me, int next) {
+    if (next == me.id) return;
+    S->switches++;
+    baton_wake(&S->tasks[next]->wake);
+    baton_park(&me.wake);
+}
+
+static void deadlock_verdict(const char *what) {
+    if (!S->free_run) {
+        S->W->viol("C18 C15", std::string("scheduler/") + what, std::string(what) + ": no task can make progress while some are unfinished (lock never released?)");
+        S->free_run = true;
+    }
+    for (auto *t : S->tasks) if (t->st == Task::BLOCKED) t->st = Task::READY;
+}
+
+static void yield_point(const char *site) {
+    Task &me = *S->tasks[t_tid];
+    S->yields++; S->W->steps++;
+    if (S->yields > S->budget && !S->free_run) {
+        S->W->viol("C18", "scheduler/yield-budget-exceeded", "an operation did not complete within the yield budget once scheduled (livelock?)");
+        S->free_run = true;
+    }
+    int next = choose(me.id, true);
+    if (next >= 0) switch_to(me, next);
+}
+
+int sched_lock(void *l, int excl) {
+    Task &me = *S->tasks[t_tid];
+    yield_point("lock");
+    for (;;) {
+        LockSt &L = S->locks[l];
+        bool mine_r = L.readers.count(me.id) != 0;
+        bool free = excl ? (L.writer < 0 && (L.readers.empty() || (L.readers.size() == 1 && mine_r))) : (L.writer < 0 || L.writer == me.id);
+        if (free || S->free_run) {
+            if (excl) L.writer = me.id; else L.readers[me.id]++;
+            vc_join(me.vc, L.vc);
+            S->W->trace.add(excl ? "lock.w" : "lock.r", me.id);
+            return 0;
+        }
+        me.st = Task::BLOCKED; me.wait_lock = l;
+        int next = choose(me.id, false);
+        if (next < 0) { deadlock_verdict("deadlock"); continue; }
+        switch_to(me, next);
+        me.st = Task::READY; me.wait_lock = nullptr;
+    }
+}
+int sched_trylock(void *l, int excl) {
+    Task &me = *S->tasks[t_tid];
+    yield_point("trylock");
+    LockSt &L = S->locks[l];
+    bool free = excl ? (L.writer < 0 && L.readers.empty()) : (L.writer < 0);
+    if (!free) return 16 /* EBUSY */;
+    if (excl) L.writer = me.id; else L.readers[me.id]++;
+    vc_join(me.vc, L.vc);
+    return 0;
+}
+int sched_unlock(void *l) {
+    Task &me = *S->tasks[t_tid];
+    LockSt &L = S->locks[l];
+    vc_join(L.vc, me.vc);
+    me.vc[me.id]++;
+    if (L.writer == me.id) L.writer = -1;
+    else { auto it = L.readers.find(me.id); if (it != L.readers.end() && --it->second <= 0) L.readers.erase(it); }
+    for (auto *t : S->tasks) if (t->st == Task::BLOCKED && t->wait_lock == l) t->st = Task::READY;
+    S->W->trace.add("unlock", me.id);
+    yield_point("unlock");
+    return 0;
+}
+
+// --- vector-clock race detector over annotated shared state
+static std::string objname(const char *site) { std::string s = site ? site : "?"; size_t p = s.find(':'); return p == std::string::npos ? s : s.substr(0, p); }
+static void race_check(bool write, const void *obj, const char *site) {
+    Task &me = *S->tasks[t_tid];
+    Shadow &sh = S->shadow[obj];
+    if (sh.rclk.size() < (size_t) S->ntasks()) sh.rclk.resize(S->ntasks(), 0);
+    auto hb = [&](int tid, u32 clk) { return tid == me.id || clk <= me.vc[tid]; };
+    std::string nm = objname(site);
+    if (sh.wtid >= 0 && !hb(sh.wtid, sh.wclk))
+        S->W->viol("C18", "data-race/" + nm + "/" + (write ? "write-write" : "write-read"),
+                   std::string(write ? "write" : "read") + " at " + (site ? site : "?") + " is unordered with the write at " + sh.wsite + " by another thread");
+    if (write) {
+        for (int t = 0; t < S->ntasks(); t++)
+            if (sh.rclk[t] && !hb(t, sh.rclk[t])) {
+                S->W->viol("C18", "data-race/" + nm + "/read-write", std::string("write at ") + (site ? site : "?") + " is unordered with a read at " + sh.rsite + " by another thread");
+                break;
+            }
+        sh.wtid = me.id; sh.wclk = me.vc[me.id]; sh.wsite = site ? site : "?";
+        std::fill(sh.rclk.begin(), sh.rclk.end(), 0);
+    } else { sh.rclk[me.id] = me.vc[me.id]; sh.rsite = site ? site : "?"; }
+}
+
+extern "C" __attribute__((visibility("default"))) void liberasurecode_verif_hook(int kind, const void *obj, const char *site) {
+    if (!sched_active()) return;
+    if (kind == 2) { yield_point(site); return; }
+    if (kind == 3) {  // object about to be freed: a write to it, then its shadow state is dropped
+        yield_point(site);
+        race_check(true, obj, site);
+        const char *b = (const char *) obj;
+        for (auto it = S->shadow.begin(); it != S->shadow.end();) {
+            const char *a = (const char *) it->first;
+            if (a >= b && a < b + sizeof(struct ec_backend)) it = S->shadow.erase(it); else ++it;
+        }
+        return;
+    }
+    yield_point(site);
+    race_check(kind == 1, obj, site);
+    S->W->probe(std::string("hook.") + objname(site));
+}
+
+static void *task_main(void *arg) {
+    Task &me = *(Task *) arg;
+    t_tid = me.id; cur().tid = me.id;
+    baton_park(&me.wake);
+    const Json &ops = *me.ops;
+    for (size_t i = 0; i < ops.size(); i++) {
+        yield_point("op");
+        exec_op(*S->W, ops[i], me.base_index + (int) i);
+    }
+    me.st = Task::DONE;
+    S->W->trace.add("done", me.id);
+    // hand the baton on
+    for (;;) {
+        std::vector<int> r = runnable();
+        if (!r.empty()) { int next = choose(me.id, false); baton_wake(&S->tasks[next]->wake); break; }
+        bool blocked = false; for (auto *t : S->tasks) if (t->st == Task::BLOCKED) blocked = true;
+        if (blocked) { deadlock_verdict("deadlock"); continue; }
+        baton_wake(&S->main_wake);
+        break;
+    }
+    t_tid = -1;
+    return nullptr;
+}
+
+void run_threaded(World &W, const Json &plan) {
+    // sequential set-up phase (shared instances and objects)
+    const Json &setup = plan["ops"];
+    for (size_t i = 0; i < setup.size(); i++) exec_op(W, setup[i], (int) i);
+    const Json &th = plan["threads"];
+    if (th.size() == 0) return;
+    W.threaded = true;
+    Sched sc; S = &sc; sc.W = &W;
+    const Json &cfg = plan["sched"];
+    sc.rng.seed((u64) cfg["seed"].num(1));
+    sc.strategy = cfg["strategy"].str().empty() ? "random" : cfg["strategy"].str();
+    sc.sticky_pct = cfg["sticky"].in(80);
+    sc.budget = (u64) cfg["budget"].num(50000);
+    if (cfg.has("decisions")) { sc.replay = cfg["decisions"].intvec(); sc.have_replay = true; }
+    int n = (int) th.size();
+    for (int i = 0; i < n; i++) {
+        Task *t = new Task(); t->id = i; t->ops = &th[i]; t->base_index = 1000 * (i + 1); t->vc.assign(n, 0); t->vc[i] = 1;
+        sc.tasks.push_back(t);
+    }
+    if (sc.strategy == "pct") {
+        sc.prio.resize(n); for (int i = 0; i < n; i++) sc.prio[i] = i + 1;
+        sc.rng.shuffle(sc.prio);
+        int d = cfg["depth"].in(2); u64 est = (u64) cfg["est"].num(300);
+        for (int i = 0; i + 1 < d; i++) sc.change_points.push_back(1 + sc.rng.below(est));
+    } else if (sc.strategy == "rtc") {
+        int c = cfg["preempt"].in(2); u64 est = (u64) cfg["est"].num(300);
+        for (int i = 0; i < c; i++) sc.preempt_points.push_back(1 + sc.rng.below(est));
+    }
+    pthread_attr_t at; pthread_attr_init(&at); pthread_attr_setstacksize(&at, 1 << 20);
+    for (auto *t : sc.tasks) pthread_create(&t->th, &at, task_main, t);
+    int first = choose(-1, false);
+    baton_wake(&sc.tasks[first]->wake);
+    baton_park(&sc.main_wake);
+    for (auto *t : sc.tasks) pthread_join(t->th, nullptr);
+    pthread_attr_destroy(&at);
+    // results for the evidence / replay file
+    W.sched_yields = sc.yields; W.sched_switches = sc.switches; W.sched_decisions = sc.decisions;
+    W.trace.add("yields", (i64) sc.yields);
+    for (auto *t : sc.tasks) delete t;
+    S = nullptr;
+    W.threaded = false;
+}
